@@ -2,47 +2,183 @@
 From KG Require Import Prelude C07_Float C07_Model C07_Spec.
 Open Scope Z_scope.
 
+(* ---- what was issued and observed on the real rateLimiter ---- *)
+Inductive rres := RAns (a : list (Z * Z)) | RErr | RPanic.
+Record mreport := {
+  r_i : Z;                     (* instance *)
+  r_items : list mitem;        (* its items (with the upstream level on record before the step) *)
+  r_cur : list Z;              (* the current quota each item carried (honest: last answer of that item type) *)
+  r_res : rres                 (* answered items / error / panic *)
+}.
+Inductive mop :=
+| MReports (rs : list mreport)                 (* issued from concurrent goroutines *)
+| MSet (sid : Z) (t : ftype) (limit burst : Z)
+| MRemove (i : Z).
+(* the record of one schema after a step, by limit member *)
+Record sview := {
+  v_s : Z;
+  v_max : list (Z * (Z * Z)); v_bucket : list (Z * (Z * Z));
+  v_rec_max : Z; v_rec_qps : Z
+}.
+
 Inductive case :=
 | CCalc (i : inputs) (obs : option (Z * Z))                  (* one calculateNextQuota call; None = panic *)
-| CHist (t : ftype) (limit burst extra : Z) (tr : list (bop * sobs)).   (* a history on a real rateLimiter *)
+| CHist (extra : Z) (schemas : list (Z * (ftype * (Z * Z)))) (tr : list (mop * list sview)).
 
 Definition is_bucket (t : ftype) : bool := match t with TBucket => true | TMax => false end.
+Definition typ_of (bk : bool) : ftype := if bk then TBucket else TMax.
 
 Definition zz_eqb (a b : Z * Z) : bool := (fst a =? fst b) && (snd a =? snd b).
 Definition ans_eqb := opt_eqb zz_eqb.
 Definition ent_eqb (a b : Z * (Z * Z)) : bool := (fst a =? fst b) && zz_eqb (snd a) (snd b).
 
-Fixpoint insert_sorted (e : Z * (Z * Z)) (l : list (Z * (Z * Z))) : list (Z * (Z * Z)) :=
+Fixpoint insert_sorted {A} (e : Z * A) (l : list (Z * A)) : list (Z * A) :=
   match l with
   | [] => [e]
   | x :: r => if fst e <=? fst x then e :: l else x :: insert_sorted e r
   end.
-Definition sort_quotas (l : list (Z * (Z * Z))) := fold_right insert_sorted [] l.
+Definition sort_by_id {A} (l : list (Z * A)) := fold_right insert_sorted [] l.
 
-(* ---- model side of a batch ---- *)
-Definition report_op (r : Z * Z * Z * Z) : op :=
-  match r with (i, used, level, up) => OReport i used level up end.
-
-Definition ops_of (o : bop) : list op :=
-  match o with
-  | BReports rs => map report_op rs
-  | BSetLimit n g => [OSetLimit n g]
-  | BRemove i => [ORemove i]
+(* ================= the model's step on one schema, in the vocabulary of the spec ================= *)
+Definition sop_of_entry (r : rentry) : sop :=
+  match r with
+  | EReport i typed count used level up clients => SRep i typed count used level up clients
+  | EDrop i => SDrop i true
   end.
 
-(* run the reports (tagged with their position in the batch) in the given order *)
-Fixpoint run_tagged (s : hstate) (rs : list (nat * (Z * Z * Z * Z))) : hstate * list (nat * option (Z * Z)) :=
+(* executed in the listed order; collects the current quota and the answer of every item *)
+Fixpoint run_entries (s : sstate) (rs : list rentry) : sstate * (list Z * list (option (Z * Z))) :=
   match rs with
-  | [] => (s, [])
-  | (k, r) :: rest =>
-      let (s1, a) := step s (report_op r) in
-      let (s2, l) := run_tagged s1 rest in
-      (s2, (k, a) :: l)
+  | [] => (s, ([], []))
+  | r :: rest =>
+      let (s1, a) := sstep s (sop_of_entry r) in
+      let '(s2, (cs, ans)) := run_entries s1 rest in
+      match r with
+      | EReport i typed _ _ _ _ _ => (s2, (current_of s i typed :: cs, a :: ans))
+      | EDrop _ => (s2, (cs, ans))
+      end
   end.
 
-Fixpoint tag {A} (k : nat) (l : list A) : list (nat * A) :=
-  match l with [] => [] | x :: r => (k, x) :: tag (S k) r end.
+Definition obs_of (s : sstate) (cs : list Z) (ans : list (option (Z * Z))) : sobs :=
+  {| o_cur := cs; o_ans := ans; o_quotas := h_quotas s; o_oquotas := h_oquotas s;
+     o_rec := h_rec s; o_orec := h_orec s |}.
 
+Definition model_step (s : sstate) (o : bop) : sstate * sobs :=
+  match o with
+  | BReports rs => let '(s', (cs, ans)) := run_entries s rs in (s', obs_of s' cs ans)
+  | BSet bk n g => let s' := fst (sstep s (SSet (typ_of bk) n g)) in (s', obs_of s' [] [])
+  | BRemove i => let s' := fst (sstep s (SDrop i false)) in (s', obs_of s' [] [])
+  end.
+
+(* the model's own trace of a list of batches (used by the history theorems): the reports of a
+   batch are executed in the listed order; any other serialisation is another list *)
+Fixpoint model_trace (s : sstate) (bs : list bop) : list (bop * sobs) :=
+  match bs with
+  | [] => []
+  | o :: r => let (s', b) := model_step s o in (o, b) :: model_trace s' r
+  end.
+
+(* ================= several schemas: what an operation means for each schema ================= *)
+Definition entry_of (clients : Z) (sid : Z) (i : Z) (items : list mitem) : rentry :=
+  match find_item sid items with
+  | Some it => EReport i (match it_typ it with Some _ => true | None => false end) (it_count it)
+                       (it_used it) (it_level it) (it_up it) clients
+  | None => EDrop i
+  end.
+
+(* the per-schema operation of the model; reports whose item types do not fit are refused as a whole *)
+Definition derive (M : mstate) (clients : Z) (sid : Z) (o : list (Z * list mitem) + (Z * ftype * Z * Z) + Z)
+  : option bop :=
+  match o with
+  | inl (inl rs) =>
+      Some (BReports (flat_map (fun r => if report_mismatch M (snd r) then []
+                                         else [entry_of clients sid (fst r) (snd r)]) rs))
+  | inl (inr (sid', t, n, g)) => if sid' =? sid then Some (BSet (is_bucket t) n g) else None
+  | inr i => Some (BRemove i)
+  end.
+
+Definition issued (o : mop) : list (Z * list mitem) + (Z * ftype * Z * Z) + Z :=
+  match o with
+  | MReports rs => inl (inl (map (fun r => (r_i r, r_items r)) rs))
+  | MSet sid t n g => inl (inr (sid, t, n, g))
+  | MRemove i => inr i
+  end.
+
+Definition clients_after (M : mstate) (o : mop) : list Z :=
+  match o with
+  | MReports rs => fold_left (fun l r => zadd (r_i r) l) rs (m_clients M)    (* all heartbeat first *)
+  | MSet _ _ _ _ => m_clients M
+  | MRemove i => zremove i (m_clients M)
+  end.
+
+(* one step of the model on all schemas: new state and, per schema, what it did and saw *)
+Definition mstep_with (M : mstate) (cl : list Z) (o : list (Z * list mitem) + (Z * ftype * Z * Z) + Z)
+  : mstate * list (Z * option (bop * sobs)) :=
+  let clients := m_extra M + Z.of_nat (List.length cl) in
+  let res := map (fun ks => match derive M clients (fst ks) o with
+                            | Some b => let (s', ob) := model_step (snd ks) b in (fst ks, s', Some (b, ob))
+                            | None => (fst ks, snd ks, None)
+                            end) (m_schemas M) in
+  ({| m_schemas := map (fun x => (fst (fst x), snd (fst x))) res; m_clients := cl; m_extra := m_extra M |},
+   map (fun x => (fst (fst x), snd x)) res).
+
+(* ================= projection of the observations on one schema ================= *)
+Fixpoint type_of_schema (sid : Z) (types : list (Z * ftype)) : option ftype :=
+  match types with [] => None | (k, t) :: r => if k =? sid then Some t else type_of_schema sid r end.
+
+Definition obs_mismatch (types : list (Z * ftype)) (items : list mitem) : bool :=
+  existsb (fun it => match it_typ it, type_of_schema (it_s it) types with
+                     | Some t, Some t' => negb (ftype_eqb t t')
+                     | _, _ => false
+                     end) items.
+
+Fixpoint index_of (sid : Z) (items : list mitem) (k : nat) : option nat :=
+  match items with [] => None | it :: r => if it_s it =? sid then Some k else index_of sid r (S k) end.
+
+(* entry, current and answer of one report for schema [sid] ([] = the report does not concern the trace) *)
+Definition proj_report (types : list (Z * ftype)) (sid : Z) (r : mreport)
+  : list (rentry * option (Z * option (Z * Z))) :=
+  let e := entry_of 0 sid (r_i r) (r_items r) in
+  match index_of sid (r_items r) 0%nat, r_res r with
+  | Some j, RAns a => [(e, Some (nth j (r_cur r) 0, nth_error a j))]
+  | None, RAns _ => [(e, None)]
+  | Some j, RErr => if obs_mismatch types (r_items r) then [] else [(e, Some (nth j (r_cur r) 0, None))]
+  | Some j, RPanic => [(e, Some (nth j (r_cur r) 0, None))]
+  | None, _ => []
+  end.
+
+Fixpoint find_view (sid : Z) (vs : list sview) : option sview :=
+  match vs with [] => None | v :: r => if v_s v =? sid then Some v else find_view sid r end.
+
+Definition view_obs (t : ftype) (v : sview) (cs : list Z) (ans : list (option (Z * Z))) : sobs :=
+  match t with
+  | TMax => {| o_cur := cs; o_ans := ans; o_quotas := v_max v; o_oquotas := v_bucket v;
+               o_rec := v_rec_max v; o_orec := v_rec_qps v |}
+  | TBucket => {| o_cur := cs; o_ans := ans; o_quotas := v_bucket v; o_oquotas := v_max v;
+                  o_rec := v_rec_qps v; o_orec := v_rec_max v |}
+  end.
+
+Definition types_after (types : list (Z * ftype)) (o : mop) : list (Z * ftype) :=
+  match o with
+  | MSet sid t _ _ => map (fun kt => if fst kt =? sid then (fst kt, t) else kt) types
+  | _ => types
+  end.
+
+Definition project (types : list (Z * ftype)) (sid : Z) (o : mop) (vs : list sview) : option (bop * sobs) :=
+  match find_view sid vs, type_of_schema sid (types_after types o) with
+  | Some v, Some t =>
+      match o with
+      | MReports rs =>
+          let ps := flat_map (proj_report types sid) rs in
+          let items := flat_map (fun p => match snd p with Some ca => [ca] | None => [] end) ps in
+          Some (BReports (map fst ps), view_obs t v (map fst items) (map snd items))
+      | MSet sid' t' n g => if sid' =? sid then Some (BSet (is_bucket t') n g, view_obs t v [] []) else None
+      | MRemove i => Some (BRemove i, view_obs t v [] [])
+      end
+  | _, _ => None
+  end.
+
+(* ================= agreement: some serialisation of the batch explains the observations ================= *)
 Fixpoint inserts {A} (x : A) (l : list A) : list (list A) :=
   match l with
   | [] => [[x]]
@@ -54,98 +190,109 @@ Fixpoint perms {A} (l : list A) : list (list A) :=
   | x :: r => flat_map (inserts x) (perms r)
   end.
 
-Fixpoint find_tag (k : nat) (l : list (nat * option (Z * Z))) : option (Z * Z) :=
-  match l with
-  | [] => None
-  | (j, a) :: r => if Nat.eqb j k then a else find_tag k r
+(* the items of a batch with what they carried and got, keyed by instance (distinct within a batch) *)
+Fixpoint keyed (rs : list rentry) (cs : list Z) (ans : list (option (Z * Z))) : list (Z * (Z * option (Z * Z))) :=
+  match rs with
+  | [] => []
+  | EDrop _ :: r => keyed r cs ans
+  | EReport i _ _ _ _ _ _ :: r =>
+      match cs, ans with
+      | c :: cs', a :: ans' => (i, (c, a)) :: keyed r cs' ans'
+      | _, _ => [(i, (-1, None))]
+      end
+  end.
+Definition keyed_eqb (a b : Z * (Z * option (Z * Z))) : bool :=
+  (fst a =? fst b) && (fst (snd a) =? fst (snd b)) && ans_eqb (snd (snd a)) (snd (snd b)).
+
+Definition drops (rs : list rentry) : list Z :=
+  flat_map (fun r => match r with EDrop i => [i] | _ => [] end) rs.
+Fixpoint insert_z (x : Z) (l : list Z) : list Z :=
+  match l with [] => [x] | y :: r => if x <=? y then x :: l else y :: insert_z x r end.
+
+Definition bop_sobs_eqb (m p : bop * sobs) : bool :=
+  let (mb, mo) := m in let (pb, po) := p in
+  (match mb, pb with
+   | BReports mr, BReports pr =>
+       list_eqb keyed_eqb (sort_by_id (keyed mr (o_cur mo) (o_ans mo))) (sort_by_id (keyed pr (o_cur po) (o_ans po)))
+       && list_eqb Z.eqb (fold_right insert_z [] (drops mr)) (fold_right insert_z [] (drops pr))
+   | BSet b1 n1 g1, BSet b2 n2 g2 => Bool.eqb b1 b2 && (n1 =? n2) && (g1 =? g2)
+   | BRemove i1, BRemove i2 => i1 =? i2
+   | _, _ => false
+   end)
+  && list_eqb ent_eqb (sort_by_id (o_quotas mo)) (o_quotas po)
+  && list_eqb ent_eqb (sort_by_id (o_oquotas mo)) (o_oquotas po)
+  && (o_rec mo =? o_rec po) && (o_orec mo =? o_orec po).
+
+Definition step_agrees (types : list (Z * ftype)) (o : mop) (vs : list sview)
+           (ms : list (Z * option (bop * sobs))) : bool :=
+  forallb (fun km => opt_eqb bop_sobs_eqb (snd km) (project types (fst km) o vs)) ms.
+
+Definition reorder (o : mop) : list mop :=
+  match o with
+  | MReports rs => map MReports (perms rs)
+  | _ => [o]
   end.
 
-Definition state_matches (s : hstate) (b : sobs) : bool :=
-  list_eqb ent_eqb (sort_quotas (h_quotas s)) (o_quotas b) && (h_rec s =? o_rec b).
-
-(* some serialisation of the batch explains what was observed *)
-Fixpoint first_match (s : hstate) (cands : list (list (nat * (Z * Z * Z * Z)))) (n : nat) (b : sobs)
-  : option hstate :=
+Fixpoint first_agreeing (M : mstate) (types : list (Z * ftype)) (o : mop) (vs : list sview) (cands : list mop)
+  : option mstate :=
   match cands with
   | [] => None
   | c :: r =>
-      let (s', tagged) := run_tagged s c in
-      if list_eqb ans_eqb (map (fun k => find_tag k tagged) (seq 0 n)) (o_ans b) && state_matches s' b
-      then Some s' else first_match s r n b
+      let (M', ms) := mstep_with M (clients_after M o) (issued c) in
+      if step_agrees types o vs ms then Some M' else first_agreeing M types o vs r
   end.
 
-Definition agree_step (s : hstate) (o : bop) (b : sobs) : option hstate :=
-  match o with
-  | BReports rs =>
-      if list_eqb Z.eqb (map (fun r => current_of s (fst (fst (fst r)))) rs) (o_cur b)
-      then
-        (* the batch's instances heartbeat first, then their reports overlap *)
-        let s0 := fold_left (fun st r => fst (step st (OBeat (fst (fst (fst r)))))) rs s in
-        first_match s0 (perms (tag 0%nat rs)) (List.length rs) b
-      else None
-  | _ =>
-      let s' := fold_left (fun st x => fst (step st x)) (ops_of o) s in
-      if state_matches s' b then Some s' else None
-  end.
-
-Fixpoint agree_hist (s : hstate) (tr : list (bop * sobs)) : bool :=
+Fixpoint agree_hist (M : mstate) (types : list (Z * ftype)) (tr : list (mop * list sview)) : bool :=
   match tr with
   | [] => true
-  | (o, b) :: r => match agree_step s o b with Some s' => agree_hist s' r | None => false end
+  | (o, vs) :: r =>
+      match first_agreeing M types o vs (reorder o) with
+      | Some M' => agree_hist M' (types_after types o) r
+      | None => false
+      end
   end.
 
-(* clause layout: agree, floor, cap, step_safe, no_growth, burst, over_commit, burst_mono *)
+(* ================= the spec on the observations, schema by schema ================= *)
+Fixpoint schema_trace (types : list (Z * ftype)) (sid : Z) (tr : list (mop * list sview)) : list (bop * sobs) :=
+  match tr with
+  | [] => []
+  | (o, vs) :: r =>
+      match project types sid o vs with
+      | Some x => x :: schema_trace (types_after types o) sid r
+      | None => schema_trace (types_after types o) sid r
+      end
+  end.
+
+Definition all9 : list bool := [true; true; true; true; true; true; true; true; true].
+
+Definition minit (extra : Z) (schemas : list (Z * (ftype * (Z * Z)))) : mstate :=
+  {| m_schemas := map (fun x => (fst x, sinit (fst (snd x)) (fst (snd (snd x))) (snd (snd (snd x))))) schemas;
+     m_clients := []; m_extra := extra |}.
+
+(* clause layout: agree, answered, floor, cap, step_safe, no_growth, burst, over_commit, count, burst_mono *)
 Definition eval (c : case) : list bool :=
   match c with
   | CCalc i obs =>
-      let agree := ans_eqb (calc_next_quota i) obs in
+      let agree := ans_eqb (Some (calc_next_quota i)) obs in
       match obs with
       | Some (q, b) =>
-          if i_count i then [agree; true; true; true; true; true; true; true]
+          if i_count i
+          then [agree; true; true; true; true; true; true; true;
+                count_ok (is_bucket (i_typ i)) (i_total i) (i_gburst i) q b; true]
           else
             let honest := 0 <=? i_current i in
-            [ agree; floor_ok q; cap_ok (i_total i) q;
+            [ agree; true; floor_ok q; cap_ok (i_total i) q;
               (* the sum after the answer is allocated - current + q *)
               if honest then step_safe_ok (i_total i) (i_allocated i) (i_allocated i - i_current i + q) q else true;
               if honest then no_growth_ok (i_total i) (i_allocated i) (i_current i) q else true;
-              burst_ok (is_bucket (i_typ i)) (i_total i) (i_gburst i) q b; true; true ]
-      | None => [agree; true; true; true; true; true; true; true]
+              burst_ok (is_bucket (i_typ i)) (i_total i) (i_gburst i) q b; true; true; true ]
+      | None => [agree; false; true; true; true; true; true; true; true; true]      (* not answered *)
       end
-  | CHist t limit burst extra tr =>
-      agree_hist (init t limit burst extra) tr :: hist_ok (is_bucket t) limit burst [] tr
-  end.
-
-(* ---- the model's own trace of a list of batches (used by the history theorems):
-   the reports of a batch are executed in the listed order, after the heartbeats of
-   all its instances; any other serialisation is another list ---- *)
-Fixpoint run_reports (s : hstate) (rs : list (Z * Z * Z * Z)) : hstate * (list Z * list (option (Z * Z))) :=
-  match rs with
-  | [] => (s, ([], []))
-  | r :: rest =>
-      let c := current_of s (fst (fst (fst r))) in
-      let (s1, a) := step s (report_op r) in
-      let '(s2, (cs, ans)) := run_reports s1 rest in
-      (s2, (c :: cs, a :: ans))
-  end.
-
-Definition beat_all (s : hstate) (rs : list (Z * Z * Z * Z)) : hstate :=
-  fold_left (fun st r => fst (step st (OBeat (fst (fst (fst r)))))) rs s.
-
-Definition model_step (s : hstate) (o : bop) : hstate * sobs :=
-  match o with
-  | BReports rs =>
-      let '(s', (cs, ans)) := run_reports (beat_all s rs) rs in
-      (s', {| o_cur := cs; o_ans := ans; o_quotas := h_quotas s'; o_rec := h_rec s' |})
-  | BSetLimit n g =>
-      let s' := fst (step s (OSetLimit n g)) in
-      (s', {| o_cur := []; o_ans := []; o_quotas := h_quotas s'; o_rec := h_rec s' |})
-  | BRemove i =>
-      let s' := fst (step s (ORemove i)) in
-      (s', {| o_cur := []; o_ans := []; o_quotas := h_quotas s'; o_rec := h_rec s' |})
-  end.
-
-Fixpoint model_trace (s : hstate) (bs : list bop) : list (bop * sobs) :=
-  match bs with
-  | [] => []
-  | o :: r => let (s', b) := model_step s o in (o, b) :: model_trace s' r
+  | CHist extra schemas tr =>
+      let types := map (fun x => (fst x, fst (snd x))) schemas in
+      agree_hist (minit extra schemas) types tr ::
+      fold_right (fun x acc =>
+                    and_rows (hist_ok (is_bucket (fst (snd x))) (fst (snd (snd x))) (snd (snd (snd x))) [] []
+                                      (schema_trace types (fst x) tr)) acc)
+                 all9 schemas
   end.
